@@ -250,6 +250,10 @@ class C17(Property):
             if len(ops) >= b["variants_depth"]:
                 return
             for o in PALETTE:
+                if o.startswith("gdef") and any(x.startswith("gdef") for x in ops):
+                    continue  # one GDEF table block per file
+                if o in ("lkp", "gdef") and o in ops:
+                    continue  # redefinition is invalid input
                 yield o
             return
         if len(ops) < b["full_depth"]:
